@@ -505,15 +505,22 @@ func judgeDS(st *stats, c *jCase) {
 		return
 	}
 	ds, panicked := libToDS(k, c.DigestType)
-	if panicked {
-		st.count("ds_library_panics", 1)
-		if S {
-			st.violation("more-permissive/dsDigestMatches/"+c.Mut, "matched where the library panics", c)
-		}
-		return
-	}
 	L := false
-	if ds != nil && len(want) > 0 {
+	if panicked {
+		// The library gives no verdict at all (it panics, e.g. in KeyTag on a
+		// short RSAMD5 key). A panic is not a rejection: the independent reference
+		// is then the plain digest of owner | DNSKEY RDATA computed here. With no
+		// reference of either kind the case is counted, not judged.
+		st.count("ds_library_panics", 1)
+		direct := directDigest(k, c.DigestType)
+		if direct == nil {
+			st.count("ds_no_reference_skipped", 1)
+			return
+		}
+		st.count("ds_library_panics_judged_by_direct_digest", 1)
+		L = len(want) > 0 && bytes.Equal(direct, want)
+	}
+	if !panicked && ds != nil && len(want) > 0 {
 		if d, err := hex.DecodeString(ds.Digest); err == nil && bytes.Equal(d, want) {
 			L = true
 		}
